@@ -39,13 +39,13 @@ NORMAL = ("n", "t", "f", "loop", "done", "ret", "brk", "cont", "caught")
 def run(ctx: RuleContext):
     m = ctx.model
     r = roles_for(m)
-    check_once(ctx, r)
-    check_body_not_run(ctx, r)
-    check_bind_outside_try(ctx, r)
-    check_metadata(ctx, r)
-    check_template_hygiene(ctx, r)
-    check_param_kinds(ctx, r, "C07.6")
-    check_coroutine_coverage(ctx, r)
+    ctx.sub(check_once, ctx, r)
+    ctx.sub(check_body_not_run, ctx, r)
+    ctx.sub(check_bind_outside_try, ctx, r)
+    ctx.sub(check_metadata, ctx, r)
+    ctx.sub(check_template_hygiene, ctx, r)
+    ctx.sub(check_param_kinds, ctx, r, "C07.6")
+    ctx.sub(check_coroutine_coverage, ctx, r)
 
 
 def checker_vars(m, jt: FuncInfo) -> dict:
